@@ -4,8 +4,12 @@ One run = one call history (3-14 calls, plus environment steps) over lock_read /
 lock_write(token?) / unlock / break_lock on ONE lockable object:
 
   counted : CountedLock wrapping a recording fake lock (can be told to fail)
+  counted0 : the same over a fake lock that hands out NO token (lock_write returns None)
+  counted_tl : CountedLock over a real TransportLock (token-less lock of the memory transport), calls recorded
   lf      : LockableFiles(transport, 'lock', LockDir) on a sim store
   repo    : the PackRepository (2a) of a branch created on a sim store
+  stacked : a 2a PackRepository with a fallback repository object; some calls lock/unlock the
+            fallback object directly (another holder of it)
   branch  : the BzrBranch of that store (its lock_* also lock its repository)
   branch+repo : as branch, some calls go to branch.repository directly
 
@@ -46,6 +50,8 @@ RULE = (
 COMPONENTS = {
     "real": [
         "breezy.counted_lock.CountedLock",
+        "breezy.bzr.lockable_files.TransportLock over the memory transport's lock (kind counted_tl)",
+        "PackRepository with a fallback repository (add_fallback_repository), kind stacked",
         "breezy.bzr.lockable_files.LockableFiles over breezy.lockdir.LockDir",
         "breezy.bzr.pack_repo.PackRepository (CHKInventoryRepository, format 2a) lock_write/lock_read/unlock/break_lock",
         "breezy.bzr.branch.BzrBranch (BzrBranch7) lock_write/lock_read/unlock/break_lock/leave_lock_in_place",
@@ -65,6 +71,8 @@ ASSUMPTIONS = [
     "physical lock of LockDir-backed objects = the directory <lock>/held, observed as successful renames at the transport seam; LockDir read locks are fake (no physical operation) by design, so a read-mode history must show NO physical event",
     "PackRepository.lock_write/lock_read take no physical lock at all by design (the repository lock directory is only taken around pack-names updates); the check encodes 'no physical event on .bzr/repository/lock at any transition' for repository and branch histories - the property's 'taken at the first lock' is vacuous there",
     "Branch.lock_* also lock the branch's repository object: modelled as a second (mode, count) coupled to the branch's 0->1 / 1->0 transitions",
+    "a stacked repository read-locks its fallback repository object at its own 0->1 and unlocks it at its 1->0 (same coupling, second (mode, count)); a refused call must change no lock state anywhere, fallback included",
+    "token-less real locks (TransportLock, fake with token None): lock_write returns None, a given token is refused with TokenLockingNotSupported, TransportLock.break_lock raises NotImplementedError; nested lock_write must not reach the real lock",
     "a lock taken with a valid token is not physically acquired and not physically released (LockDir.lock_write(token) / leave_in_place semantics)",
     "break_lock on an object whose own LockDir holds the physical lock is refused with AssertionError (LockDir._check_not_locked); CountedLock.break_lock resets the count",
     "environment steps (peer takes/releases the lock, leaves a token in place) run only while the object under test is unlocked; the steal steps (peer breaks the lock, optionally re-takes / releases it) run only while the object under test physically holds the write lock",
@@ -74,7 +82,7 @@ ASSUMPTIONS = [
     "working trees are not covered (their lock is an OS file lock outside the transport seam)",
 ]
 
-KINDS = ["counted", "counted", "lf", "lf", "lf", "repo", "branch", "branch", "branch", "branch+repo", "branch+repo"]
+KINDS = ["counted", "counted0", "counted_tl", "lf", "lf", "lf", "repo", "stacked", "stacked", "branch", "branch", "branch", "branch+repo", "branch+repo"]
 _PENDING = re.compile(r"/lock/[a-z0-9]{10}\.tmp$")
 UNLOCK_STEPS = ["confirm", "rename", "delete", "rmdir"]
 
@@ -86,6 +94,7 @@ def warm():
     locksim.install_yes_ui()
     logging.getLogger("brz").setLevel(logging.WARNING)  # LockDir reports contention through trace.note
     _snapshot()
+    _snapshot_stacked()
     _exercise()
 
 
@@ -133,10 +142,10 @@ def generate(rng, tier):
         if rng.random() < 0.03:
             name = "break_lock"
         target = "x"
-        if kind == "branch+repo" and name in ("lock_read", "lock_write", "unlock") and rng.random() < 0.35:
+        if kind in ("branch+repo", "stacked") and name in ("lock_read", "lock_write", "unlock") and rng.random() < 0.35:
             target = "r"
         if name == "env":
-            if kind == "counted":
+            if kind.startswith("counted"):
                 continue
             step = rng.choice(["other_lock", "other_unlock", "other_unlock", "leave_token", "drop_token", "steal", "steal_hold", "steal_cycle"])
             if step == "other_lock" or step == "leave_token":
@@ -151,20 +160,28 @@ def generate(rng, tier):
             tok = None if r < 0.7 else ("valid" if r < 0.9 else "bogus")
             flt = None
             if tok is None and target == "x" and rng.random() < 0.12:
-                if kind == "counted":
+                if kind.startswith("counted"):
                     flt = "fail"
-                elif kind != "repo":
+                elif kind not in ("repo", "stacked"):
                     flt = "err:" + rng.choice(["transport", "enospc", "permission", "connection"])
             op += [tok, flt]
-        elif name == "lock_read" and kind == "counted" and rng.random() < 0.1:
+        elif name == "lock_read" and kind.startswith("counted") and rng.random() < 0.1:
             op += [None, "fail"]
         elif name == "unlock" and target == "x" and rng.random() < 0.2:
-            if kind == "counted":
+            if kind.startswith("counted"):
                 op += [None, "fail"]
-            elif kind != "repo":
+            elif kind not in ("repo", "stacked"):
                 op += [None, "uerr:" + rng.choice(UNLOCK_STEPS) + ":" + rng.choice(["transport", "enospc", "permission", "connection", "nosuchfile"])]
         ops.append(op)
-    if kind not in ("counted", "repo") and rng.random() < 0.3:
+    if kind.startswith("counted") and rng.random() < 0.3:
+        # nested write locks: the physical lock is taken by the first one only, token or no token
+        seq = [["x", "lock_write", None, None]]
+        if rng.random() < 0.5:
+            seq.append(["x", "lock_read"])
+        seq.append(["x", "lock_write", None, None])
+        at = rng.randint(0, len(ops))
+        ops[at:at] = seq
+    if kind in ("lf", "branch", "branch+repo") and rng.random() < 0.3:
         # make the interesting shape likely: write lock (maybe nested), somebody steals it, unlock(s), lock again
         seq = [["x", "lock_write", None, None]]
         if rng.random() < 0.4:
@@ -196,15 +213,49 @@ def _snapshot():
     return _snap
 
 
+_snap2 = {}
+
+
+def _snapshot_stacked():
+    """Two empty 2a repositories (base/ and stacked/) in one store."""
+    if _snap2:
+        return _snap2
+    from breezy import controldir
+    from dromedary import get_transport_from_url
+    from simkit.sim import Sim
+    from simkit.transport import snapshot
+
+    sim = Sim(0)
+    world.setup_sim(sim)
+    url = world.new_store("c28warm2")
+    fmt = controldir.format_registry.make_controldir("2a")
+    for name in ("base", "stacked"):
+        controldir.ControlDir.create(url + name, format=fmt).create_repository()
+    _snap2.update(snapshot(get_transport_from_url(url)))
+    return _snap2
+
+
 class FakeLock:
-    """The 'real lock' under CountedLock: records what it is asked to do."""
+    """The 'real lock' under CountedLock: records what it is asked to do.  With token=None it is a lock that hands
+    out no token (like TransportLock / OS file locks) and refuses to be given one."""
 
     TOKEN = b"fake-token"
 
-    def __init__(self):
+    def __init__(self, token=TOKEN):
         self.calls = []
         self.fail_next = False
         self.held = None
+        self.token = token
+
+    def _check_token(self, token):
+        from breezy import errors
+
+        if token is None:
+            return
+        if self.token is None:
+            raise errors.TokenLockingNotSupported(self)
+        if token != self.token:
+            raise errors.TokenMismatch(token, self.token)
 
     def _maybe_fail(self):
         from breezy import errors
@@ -219,14 +270,12 @@ class FakeLock:
         self.held = "r"
 
     def lock_write(self, token=None):
-        from breezy import errors
 
         self.calls.append("lock_write")
         self._maybe_fail()
-        if token is not None and token != self.TOKEN:
-            raise errors.TokenMismatch(token, self.TOKEN)
+        self._check_token(token)
         self.held = "w"
-        return self.TOKEN
+        return self.token
 
     def unlock(self):
         from breezy import errors
@@ -242,14 +291,69 @@ class FakeLock:
         self.held = None
 
     def validate_token(self, token):
-        from breezy import errors
 
         self.calls.append("validate_token")
-        if token is not None and token != self.TOKEN:
-            raise errors.TokenMismatch(token, self.TOKEN)
+        self._check_token(token)
 
     def peek(self):
         return None
+
+
+def _rec_transport_lock(transport, name):
+    """A real TransportLock (lock of the memory transport under the seam) whose calls are recorded."""
+    from breezy import errors
+    from breezy.bzr.lockable_files import TransportLock
+
+    class RecTransportLock(TransportLock):
+        token = None
+
+        def __init__(self, *a):
+            TransportLock.__init__(self, *a)
+            self.calls = []
+            self.fail_next = False
+            self._lock = None
+            self._mode = None
+
+        @property
+        def held(self):
+            return self._mode if self._lock is not None else None
+
+        def _maybe_fail(self):
+            if self.fail_next:
+                self.fail_next = False
+                raise errors.LockContention(self)
+
+        def lock_read(self):
+            self.calls.append("lock_read")
+            self._maybe_fail()
+            TransportLock.lock_read(self)
+            self._mode = "r"
+
+        def lock_write(self, token=None):
+            self.calls.append("lock_write")
+            self._maybe_fail()
+            r = TransportLock.lock_write(self, token=token)
+            self._mode = "w"
+            return r
+
+        def unlock(self):
+            self.calls.append("unlock")
+            TransportLock.unlock(self)
+            if self.fail_next:
+                self.fail_next = False
+                raise errors.LockBroken(self)
+
+        def break_lock(self):
+            self.calls.append("break_lock")
+            return TransportLock.break_lock(self)
+
+        def validate_token(self, token):
+            self.calls.append("validate_token")
+            return TransportLock.validate_token(self, token)
+
+    tl = RecTransportLock(transport, name, 0o644, 0o755)
+    tl.create()
+    return tl
 
 
 class M:
@@ -305,16 +409,39 @@ class World:
         from dromedary import get_transport_from_url
 
         kind = self.kind
-        if kind == "counted":
+        self.counted = kind.startswith("counted")
+        self.tokenless = kind in ("counted0", "counted_tl")
+        if kind in ("counted", "counted0"):
             from breezy.counted_lock import CountedLock
 
-            self.fake = FakeLock()
+            self.fake = FakeLock() if kind == "counted" else FakeLock(token=None)
             self.x = CountedLock(self.fake)
             return
         self.url = world.new_store("c28")
         self.t = get_transport_from_url(self.url)
         self.rt = raw(self.t)
+        if kind == "counted_tl":
+            from breezy.counted_lock import CountedLock
+
+            self.fake = _rec_transport_lock(self.t, "lockfile")
+            self.x = CountedLock(self.fake)
+            return
         self.sim.monitors.append(self.monitor)
+        if kind == "stacked":
+            from breezy.repository import Repository
+
+            snap = _snapshot_stacked()
+            for p in sorted(snap):
+                if snap[p] is None:
+                    self.rt.mkdir(p)
+                else:
+                    self.rt.put_bytes(p, snap[p])
+            self.lockdir = "/stacked/.bzr/repository/lock"
+            self.repodir = "/base/.bzr/repository/lock"
+            self.x = Repository.open(self.url + "stacked")
+            self.r = Repository.open(self.url + "base")  # the fallback repository object, also locked by others
+            self.x.add_fallback_repository(self.r)
+            return
         if kind == "lf":
             self.rt.mkdir("lock")
             self.lockdir = "/lock"
@@ -347,6 +474,8 @@ class World:
         if self.kind == "repo" and not branch:
             # a competing holder of the repository's lock directory (e.g. a process rewriting pack-names)
             return LockableFiles(self.t.clone(".bzr/repository"), "lock", LockDir)
+        if self.kind == "stacked":
+            return LockableFiles(self.t.clone("stacked/.bzr/repository"), "lock", LockDir)
         return Branch.open(self.url)
 
     # -- observation at the seam ----------------------------------------------------------
@@ -378,10 +507,10 @@ class World:
         """Peer objects of the same kind act on the lock directory.  Returns what happened."""
         if step.startswith("steal"):
             return self.steal(step)
-        if self.kind == "counted" or self.mx.count or self.mr.count:
+        if self.counted or self.mx.count or self.mr.count:
             return "skipped"
-        leave = "leave_in_place" if self.kind in ("lf", "repo") else "leave_lock_in_place"
-        dont = "dont_leave_in_place" if self.kind in ("lf", "repo") else "dont_leave_lock_in_place"
+        leave = "leave_in_place" if self.kind in ("lf", "repo", "stacked") else "leave_lock_in_place"
+        dont = "dont_leave_in_place" if self.kind in ("lf", "repo", "stacked") else "dont_leave_lock_in_place"
         if step == "other_lock" and self.phys is None:
             self.peer = self.new_object()
             self.token = _tok(self.peer.lock_write())
@@ -414,7 +543,7 @@ class World:
         """Another process decides x's lock is stale: peek + force_break, then maybe takes it (and releases it)."""
         from breezy.lockdir import LockDir
 
-        if self.kind in ("counted", "repo") or self.phys != "x" or self.mx.mode != "w" or self.mx.via_token or self.broken:
+        if self.counted or self.kind in ("repo", "stacked") or self.phys != "x" or self.mx.mode != "w" or self.mx.via_token or self.broken:
             return "skipped"
         base = self.lockdir[1:].rsplit("lock", 1)[0].rstrip("/")
         ld = LockDir(self.t.clone(base) if base else self.t.clone(), "lock")
@@ -445,7 +574,7 @@ class World:
             return None
         if tok == "bogus":
             return b"bogus-token-bogus"
-        if self.kind == "counted":
+        if self.counted:
             return FakeLock.TOKEN
         info = locksim.read_info(self.t, self.lockdir[1:] + "/held/info")
         if info is None or info[0] in (None, "<corrupt>"):
@@ -471,7 +600,7 @@ class World:
         ustep = None
         if flt == "fail":
             self.fake.fail_next = True
-        elif flt and flt.startswith("err:") and self.kind != "counted":
+        elif flt and flt.startswith("err:") and not self.counted:
             injected = True
             self._aim_pred = lambda op, path: op == "rename" and _PENDING.search(path) is not None
             sim.fault_filter = self._aim
@@ -490,7 +619,7 @@ class World:
             sim.fault_filter = self._aim
             sim.arm([{"kind": "err_before", "at": -1, "count": "any", "op": top, "err": uerr, "dyn": True}])
         self.events = []
-        if self.kind == "counted":
+        if self.counted:
             self.fake.calls = []
         self.recording = True
         exc = None
@@ -503,7 +632,7 @@ class World:
                     obj.lock_write(token=token)
             else:
                 getattr(obj, name)()
-        except AssertionError as e:
+        except (AssertionError, NotImplementedError) as e:
             exc = e
         except (errors.BzrError, OSError) as e:
             exc = e
@@ -520,9 +649,9 @@ class World:
                 fired = any(f.get("done") for f in sim.faults)
                 sim.disarm()
                 sim.fault_filter = None
-            if self.kind == "counted":
+            if self.counted:
                 self.fake.fail_next = False
-        events = list(self.events) if self.kind != "counted" else [c for c in self.fake.calls if c != "validate_token"]
+        events = list(self.events) if not self.counted else [c for c in self.fake.calls if c != "validate_token"]
         got = type(exc).__name__ if exc is not None else "ok"
         sim.event("call", target, name, tok, flt, got, ",".join(events), "fired" if fired else "")
         sim.probe(f"{name}:{got}")
@@ -585,7 +714,8 @@ class World:
 
             return f
 
-        if kind == "counted":
+        if self.counted:
+            notok = tok is not None and self.tokenless  # a lock without tokens refuses to be given one
             if name == "lock_read":
                 if mx.count == 0:
                     if flt == "fail":
@@ -596,11 +726,15 @@ class World:
                 if mx.count == 0:
                     if flt == "fail":
                         return errors.LockContention, ["lock_write"], None
+                    if notok:
+                        return errors.TokenLockingNotSupported, ["lock_write"], None
                     if tok == "bogus":
                         return errors.TokenMismatch, ["lock_write"], None
                     return None, ["lock_write"], up(mx, "w")
                 if mx.mode != "w":
                     return errors.ReadOnlyError, [], None
+                if notok:
+                    return errors.TokenLockingNotSupported, [], None
                 if tok == "bogus":
                     return errors.TokenMismatch, [], None
                 return None, [], up(mx, "w")
@@ -612,6 +746,8 @@ class World:
                     return errors.LockBroken, ["unlock"], self._down(mx)
                 return None, (["unlock"] if mx.count == 1 else []), self._down(mx)
             if name == "break_lock":
+                if kind == "counted_tl":
+                    return NotImplementedError, ["break_lock"], None  # TransportLock cannot be broken
 
                 def reset():
                     mx.mode, mx.count, mx.via_token = None, 0, False
@@ -619,6 +755,25 @@ class World:
                 return None, ["break_lock"], reset
             raise RuntimeError(name)
 
+        if kind == "stacked" and target == "x":
+            # a pack repository with a fallback: its 0->1 read-locks the fallback object, its 1->0 unlocks it;
+            # a refused call changes no lock state anywhere
+            first = mx.count == 0
+            if name == "lock_read":
+                return None, [], self._both(up(mx, "r"), up(mr, "r") if first else None)
+            if name == "lock_write":
+                if mx.mode == "r":
+                    return errors.ReadOnlyError, [], None
+                return None, [], self._both(up(mx, "w"), up(mr, "r") if first else None)
+            if name == "unlock":
+                if mx.count == 0:
+                    return errors.LockNotHeld, [], None
+                return None, [], self._both(self._down(mx), self._down(mr) if mx.count == 1 else None)
+            if name == "break_lock":
+                if self.phys in ("other", "token"):
+                    return None, ["x:break"], self._broken
+                return None, [], None
+            raise RuntimeError(name)
         if kind == "repo" or target == "r":
             m = mx if kind == "repo" else mr
             if name == "lock_read":
@@ -755,14 +910,15 @@ class World:
         obs, want = {}, {}
         x = self.x
         obs["is_locked"], want["is_locked"] = bool(x.is_locked()), mx.count > 0
-        if kind == "counted":
+        if self.counted:
             obs["fake_held"], want["fake_held"] = self.fake.held, mx.mode
         if kind == "lf":
             obs["mode"], want["mode"] = x._lock_mode, mx.mode
-        elif kind == "repo":
+        elif kind in ("repo", "stacked"):
             obs["write_locked"], want["write_locked"] = bool(x.is_write_locked()), mx.mode == "w"
         elif kind.startswith("branch"):
             obs["mode"], want["mode"] = x.peek_lock_mode(), mx.mode
+        if kind.startswith("branch") or kind == "stacked":
             obs["repo_locked"], want["repo_locked"] = bool(self.r.is_locked()), mr.count > 0
             obs["repo_write_locked"], want["repo_write_locked"] = bool(self.r.is_write_locked()), mr.mode == "w"
         # the counters themselves (documented instance variables; skipped if an implementation has none)
@@ -770,7 +926,7 @@ class World:
             c = _count_of(o)
             if c is not None:
                 obs[label], want[label] = c, m.count
-        if kind != "counted":
+        if not self.counted:
             obs["held_on_disk"], want["held_on_disk"] = self.rt.has(self.lockdir[1:] + "/held"), self.phys is not None
             if self.repodir and self.repodir != self.lockdir:
                 obs["repo_held_on_disk"], want["repo_held_on_disk"] = self.rt.has(self.repodir[1:] + "/held"), False
